@@ -159,6 +159,12 @@ func load(env *kernel.Env, ref progRef) *loaded {
 	if l, ok := cache[key]; ok {
 		return l
 	}
+	// a worker goes through its programs block by block: the previous program
+	// is not needed any more, and a loaded program (three type-checked copies
+	// of its packages) is what a worker's memory is made of
+	for k := range cache {
+		delete(cache, k)
+	}
 	dir := progDir(env, ref)
 	verifsim.MapHook = identity
 	defer func() { verifsim.MapHook = nil }()
